@@ -22,6 +22,16 @@ CHECKS = {
             "compressed variant the reference image is fits_tools.expand (pinned by C15).",
             "TLA+ model (MC_Bands) checked by TLC + TLC trace validation (Bands_Trace) of bounded-exhaustive load_image_band executions",
             "4/C20"),
+    "C15": ("model_checking",
+            "TLC proves on spec/MC_Expand.tla (the coded decimation + linear interpolation design, one separable axis, "
+            "integers scaled by f) that expansion is exact at nodes, within the sample range, exact for affine images on "
+            "complete cells, restores CRPIX and removes BN_* for all R<=14 (24), f<=16 (32); the real "
+            "fits_tools.compress/expand (file, in-memory HDU, SR6 CLI; CDELT and CD headers) is run on every (R,C,f) of a "
+            "bounded-exhaustive 2-D domain plus seeded larger shapes, and TLC validates each observed output array against "
+            "the property-level predicates in spec/Expand_Trace.tla.",
+            "astropy.io.fits round trip; pixel tokens are small integers exact in float32; rotation-free headers as in the property.",
+            "TLA+ model (MC_Expand) checked by TLC + TLC trace validation (Expand_Trace) of bounded-exhaustive compress/expand executions",
+            "4/C15"),
 }
 
 NOT_YET = "check not built yet in this round of construction (planned, see DESIGN.md section 4)"
